@@ -38,6 +38,14 @@ def cases(tier, rng, boost=1):
     yield _mk([[5, 7], [7, 7, 7, 5]], 3, src='corpus', cls='gapped')
     yield _mk([[-1, 0, 2, 2, -1, 0]], 1, src='corpus', cls='negative')
     yield _mk([[0, 1], [2, 2, 2, 2, 2, 0, 0, 0, 0, 1, 1, 1, 1]], 3, src='corpus', cls='zero')
+    # narrow dtypes whose label RANGE exceeds the dtype (offset arithmetic must not be done in the input dtype)
+    yield _mk([[-128, -1, 0, 127, -1, -128, 0, 127, 127, -1]], 1, form='narrow_arrays', src='corpus', cls='narrow_wide')
+    yield _mk([[-100, 100, 100, -100, -1, 100, -1, -100]], 1, form='narrow_arrays', src='corpus', cls='narrow_wide')
+    yield _mk([[-20000, 3, 20000, 3, -20000, 20000, 20000, 3]], 2, form='narrow_arrays', src='corpus', cls='narrow_wide')
+    # many frames in many trajectories: unsynchronised parallel counting would lose increments
+    brng = core.Rng(7)
+    big = [[brng.randrange(3) for _ in range(60000 if tier == 'quick' else 200000)] for _ in range(16)]
+    yield _mk(big, 1, src='corpus', cls='zero')
     total = {'quick': 5, 'thorough': 7, 'search': 6}[tier]
     k = 0
     names = list(ALPHAS3)
@@ -63,6 +71,14 @@ def cases(tier, rng, boost=1):
         if not any(trajs):
             continue
         lag = rng.choice([1, 1, 2, 3, 4, 5, 8, 12])
+        if rng.random() < 0.08:
+            # labels spanning more than the narrowest dtype that holds them, stored in that dtype
+            lo, hi = rng.choice([(-128, 127), (-120, 110), (-32768, 32767), (-30000, 29000)])
+            wl = sorted({lo, hi} | {rng.randint(lo, hi) for _ in range(n - 2)})
+            trajs = [[wl[i % len(wl)] for i in t] for t in gen.random_trajs(rng, len(wl), ntraj, 1, 40)]
+            if any(trajs):
+                yield _mk(trajs, lag, form='narrow_arrays', src='rand', cls='narrow_wide')
+            continue
         yield _mk(trajs, lag, form=rng.choice(gen.FORMS), src='rand', cls=cls)
 
 
@@ -74,9 +90,11 @@ def canon_model(T, states):
 def real(case):
     import msmhelper as mh
     rng = core.Rng(hash(str(case['trajs'])) & 0xffff)
-    arg = gen.to_form(case['trajs'], case.get('form', 'list_of_arrays'), rng)
+    def mkarg():
+        return gen.to_form(case['trajs'], case.get('form', 'list_of_arrays'), rng)
 
     def run():
+        arg = mkarg()
         T, st = mh.msm.estimate_markov_model(arg, case['lag'])
         T2, st2 = mh.StateTraj(arg).estimate_markov_model(case['lag'])
         T = np.asarray(T)
